@@ -1,3 +1,5 @@
+//go:build verif_all || verif_c17
+
 package main
 
 import (
